@@ -403,15 +403,36 @@ func runDriver(c *harness.Ctx) harness.Result {
 		keep = regexp.MustCompile("^(" + e[1] + ")$")
 	}
 	type exp struct {
-		frames string
-		known  bool
-		dev    string
+		frames        string
+		known         bool
+		dev           string
+		gone, devGone bool // removed by the name filter (which sees the stack before prune_from cuts it)
+	}
+	// a name filter next to prune_from: it is applied to the stacks as drop_frames left them
+	nameOpt, nameRx := "", ""
+	if pf != "" && r.Intn(2) == 0 {
+		nameOpt = []string{"focus", "ignore"}[r.Intn(2)]
+		nameRx = []string{"user1", "drop2", "user", "keep", "drop1", "operator"}[r.Intn(6)]
+	}
+	filtered := func(fs []frame) bool {
+		if nameOpt == "" {
+			return false
+		}
+		rx := regexp.MustCompile(nameRx)
+		hit := false
+		for _, f := range fs {
+			if f.sym && rx.MatchString(f.name) {
+				hit = true
+			}
+		}
+		return hit == (nameOpt == "ignore")
 	}
 	want := map[string]exp{}
 	for i, s := range p.Sample {
 		fs := refPrune(framesOf(s), drop, keep)
 		dv := devPrune(s, drop, keep)
 		x := exp{known: inClass(s, drop, keep)}
+		x.gone, x.devGone = filtered(fs), filtered(dv)
 		if pf != "" {
 			rx := regexp.MustCompile(pf)
 			fs = refPruneFrom(fs, rx)
@@ -421,6 +442,10 @@ func runDriver(c *harness.Ctx) harness.Result {
 		want[fmt.Sprint(i)] = x
 	}
 	desc := fmt.Sprintf("drop_frames=%q keep_frames=%q prune_from=%q", e[0], e[1], pf)
+	if nameOpt != "" {
+		desc += fmt.Sprintf(" %s=%q", nameOpt, nameRx)
+		c.Stat("driver_runs_with_name_filter", 1)
+	}
 	res := harness.Result{NonTrivial: true, Sig: desc + fmt.Sprint(len(p.Sample), c.Index), Sample: map[string]any{"options": desc}}
 	profs, srcs, extra := map[string]*profile.Profile{"p": p}, []string{"p"}, 0
 	if r.Intn(3) == 0 {
@@ -438,7 +463,11 @@ func runDriver(c *harness.Ctx) harness.Result {
 		desc += fmt.Sprintf(" + second source with drop_frames=%q keep_frames=%q", p2.DropFrames, p2.KeepFrames)
 		c.Stat("driver_runs_two_sources", 1)
 	}
-	out, ui, rr := drv.Report(profs, srcs, map[string]bool{"proto": true, "addresses": true}, map[string]string{"prune_from": pf}, nil, nil, nil)
+	opts := map[string]string{"prune_from": pf}
+	if nameOpt != "" {
+		opts[nameOpt] = nameRx
+	}
+	out, ui, rr := drv.Report(profs, srcs, map[string]bool{"proto": true, "addresses": true}, opts, nil, nil, nil)
 	if rr.Panic != "" {
 		return harness.Violation("%s: panic %s", desc, rr.Panic)
 	}
@@ -450,11 +479,28 @@ func runDriver(c *harness.Ctx) harness.Result {
 		return harness.Violation("%s: output unparseable: %v", desc, err)
 	}
 	c.Stat("driver_runs", 1)
-	if len(got.Sample) != len(p.Sample)+extra {
+	if nameOpt == "" && len(got.Sample) != len(p.Sample)+extra {
 		res.Verdict, res.Detail = harness.Violated, fmt.Sprintf("%s: %d samples in, %d out", desc, len(p.Sample)+extra, len(got.Sample))
 		return res
 	}
 	known := ""
+	present := map[string]bool{}
+	for _, s := range got.Sample {
+		if v := s.Label["id"]; len(v) == 1 {
+			present[v[0]] = true
+		}
+	}
+	for id, w := range want {
+		switch {
+		case nameOpt == "" || present[id] == !w.gone:
+		case w.known && present[id] == !w.devGone:
+			known = fmt.Sprintf("%s (through the driver): sample %s present=%v; the statement gives present=%v", desc, id, present[id], !w.gone)
+		default:
+			res.Verdict = harness.Violated
+			res.Detail = fmt.Sprintf("%s: sample %s present in the output: %v; the name filter applied to the stack that drop_frames leaves (before prune_from cuts it) gives present=%v\nprofile:\n%s", desc, id, present[id], !w.gone, harness.Trunc(p.String(), 2500))
+			return res
+		}
+	}
 	for _, s := range got.Sample {
 		id := ""
 		if v := s.Label["id"]; len(v) == 1 {
